@@ -217,6 +217,15 @@ def rule_scan(ctx):
     head = cfg.nodes_for(scan)
     ok = bool(incs) and bool(head)
     msg = ""
+    if not incs and isinstance(scan, ast.For) and cv in {n.id for n in ast.walk(scan.target) if isinstance(n, ast.Name)}:
+        it = scan.iter
+        if isinstance(it, ast.Call) and isinstance(it.func, ast.Name) and it.func.id == "enumerate" and len(it.args) == 1 \
+                and not it.keywords and isinstance(it.args[0], ast.Name) and it.args[0].id == fparam:
+            ctx.ok("SEC.SCAN", site + "#counter", fi, scan, "the line counter is the enumerate() index of the file iteration")
+        else:
+            ctx.undecided("SEC.SCAN", site + "#counter", fi, scan, "the line counter is produced by `%s`" % unparse(it))
+        ctx.floor("SEC.SCAN", 3)
+        return
     if ok:
         h = head[0]
         # a path head->head avoiding all increments
@@ -271,18 +280,20 @@ def rule_convention(ctx):
                 offsets.append((where, l.get(1, 0), sub))
                 ends_name = ast.unparse(sub.func.value)
     wheres = {w for w, c, s in offsets}
-    if wheres != {"inner", "last"}:
-        raise AnalysisError("cannot find both the inner and the final `ends.append(counter + c)` in find_sections_in_file "
-                            "(found %s)" % sorted(wheres))
     cs = {c for w, c, s in offsets}
-    bad_site = [s for w, c, s in offsets if w == "last"][0]
-    if len(cs) != 1:
+    if wheres != {"inner", "last"}:
+        ctx.undecided("SEC.CONVENTION", site + "#producer", fi, fi.node, "section ends are not recorded as `ends.append(counter + c)` "
+                      "inside and after the title scan (found %s): the producer side of the end convention is not decided "
+                      "in this form" % sorted(wheres))
+    elif len(cs) != 1:
+        bad_site = [s for w, c, s in offsets if w == "last"][0]
         ctx.bad("SEC.CONVENTION", site + "#producer", fi, bad_site,
                 "section ends are recorded with different offsets from the boundary line: %s - inner sections and the "
                 "last section disagree about whether the end is inclusive" % sorted(
                     "%s: boundary%+d" % (w, c) for w, c, s in offsets))
         conv = None
     else:
+        bad_site = [s for w, c, s in offsets if w == "last"][0]
         conv = cs.pop()
         ctx.check(conv == -1, "SEC.CONVENTION", site + "#producer", fi, bad_site,
                   "every section end is the index of the last line of the section (boundary - 1), for inner sections and "
@@ -636,8 +647,13 @@ def _fold_title(t, var, title, extra=None, defs=None):
                 return fold(defs[name], env)
             finally:
                 depth[0] -= 1
+        if _MODULE_ENV[0] is not None:
+            return _MODULE_ENV[0](name)
         raise NotConst("name %s" % name)
     return fold(t, env)
+
+
+_MODULE_ENV = [None]
 
 
 def _mentions(v, tv, derived, depth=0):
@@ -744,7 +760,7 @@ def rule_case(ctx):
                     else:
                         ctx.ok("SEC.CASE", site, fi, atom, "`%s` gives the same answer for upper- and lower-case section "
                                "letters (%d probe title pairs)" % (unparse(atom), len(_probe_titles())))
-    ctx.floor("SEC.CASE", 10)
+    ctx.floor("SEC.CASE", 6)
 
 
 def _case_site(atom):
@@ -804,6 +820,10 @@ def rule_steer(ctx):
     stores = _steer_stores(fr)
     found = set()
     derived = _title_derived(fr, tv)
+    if not stores:
+        ctx.undecided("SEC.STEER", READ + "#steer", fr, fr.node, "no `x = <items>.<VERS|WRAP|DLM|NULL>.value` pick-up found: the "
+                      "steering values are kept in another form")
+        return
     for st, mn, var in stores:
         found.add(mn)
         site = "%s#steer(%s)" % (READ, mn)
@@ -1050,8 +1070,11 @@ def rule_route(ctx):
             else:
                 if key in std or key != title[1:]:
                     problems.append("a custom section titled %r is stored under sections[%r] instead of its own title" % (title, key))
-    if n_eval < 12:
-        raise AnalysisError("SEC.ROUTE: only %d probe titles could be evaluated (routing or parser tests not foldable)" % n_eval)
+    if n_eval < 12 and not problems:
+        ctx.undecided("SEC.ROUTE", READ + "#route-vs-parser", fr, sp["loop"], "only %d probe titles could be evaluated: the routing "
+                      "in read() or the dispatch in SectionParser.__init__ is not an if-chain over the title" % n_eval)
+        ctx.floor("SEC.ROUTE", 0)
+        return
     ctx.check(not problems, "SEC.ROUTE", READ + "#route-vs-parser", fr, sp["loop"],
               "for all %d probe titles the key under which a header section is stored agrees with the kind SectionParser "
               "parses it as; custom sections are kept under their own title" % n_eval,
